@@ -320,6 +320,9 @@ const c12ParallelCases = 12
 
 func runC12(w *core.WorkerCtx, idx int) *core.CaseResult {
 	cs := c12Cases(w.Tier)
+	if idx >= len(cs)+c12ParallelCases+c12RealCases(w.Tier) {
+		return runC12Frac(w, idx-len(cs)-c12ParallelCases-c12RealCases(w.Tier))
+	}
 	if idx >= len(cs)+c12ParallelCases {
 		return runC12Real(w, idx-len(cs)-c12ParallelCases)
 	}
@@ -451,10 +454,13 @@ func init() {
 			"plus 12 cases in which 8 targets with different payloads/encodings are scraped concurrently through one proxy over a real HTTP hop, three rounds each, plus four rendezvous pairs of gzip scrapes whose harness-owned ResponseWriters hold both scrapes between the request to the target and the streaming of the body; oracle = byte equality of what Prometheus received with the target's body after decompression, status 200, same Content-Type; runs from the -race binary (the parser calls back concurrently); " +
 			"plus, in each of those 12 cases, two scrapes during which the administrative stop is lifted / set while the real request is held in the harness transport: a complete 200 response must carry the target's bytes; " +
 			"plus, per shape, targets that pick the content coding from the request's Accept-Encoding (deflate if offered, else gzip, else identity); " +
+			"plus 4 cases with a scrape_timeout of 1.9 s / 2.5 s and a target that answers completely after 1.3 s / 2.2 s: a delivery that breaks off before the configured timeout has passed is a violation, a later one decides nothing (a really loaded machine), three tries; " +
 			"plus 3/12 cases on the REAL sidecar process (proxy started by Proxy.Run) with a loopback target whose header, tail or parts of a 200-300 KB body arrive over 11-31 s (scrape_timeout 120 s); " +
 			"non-trivial = every case; distinct = (shape, encoding, mode, assigned, short-write size, chunking)",
-		Assumptions:   []string{"targets are in-memory http.RoundTrippers installed in JobInfo.Cli; gzip bodies are produced with compress/gzip at default level"},
-		NumCases:      func(tier string) int { return len(c12Cases(tier)) + c12ParallelCases + c12RealCases(tier) },
+		Assumptions: []string{"targets are in-memory http.RoundTrippers installed in JobInfo.Cli; gzip bodies are produced with compress/gzip at default level"},
+		NumCases: func(tier string) int {
+			return len(c12Cases(tier)) + c12ParallelCases + c12RealCases(tier) + c12FracCases
+		},
 		Run:           runC12,
 		MinNontrivial: 100,
 		CaseTimeout:   300e9,
